@@ -6,6 +6,7 @@ import (
 	"log"
 	"log/slog"
 	"os"
+	"pgregory.net/rapid"
 	"strconv"
 	"testing"
 
@@ -93,3 +94,14 @@ func (n noFail) Fatal(args ...any)                 { *n.out = fmt.Sprint(args...
 func (n noFail) FailNow()                          {}
 func (n noFail) Fail()                             {}
 func (n noFail) Failed() bool                      { return *n.out != "" }
+
+// drawActions draws the length of a history. The quick tier mostly keeps histories
+// short (many small cases), but one case in eight is as long as in the thorough
+// tier: the two defects the first thorough sweep found needed more than 16 actions.
+func drawActions(rt *rapid.T, lo, quick, thor int) int {
+	hi := scale(quick, thor)
+	if !thorough() && rapid.IntRange(0, 7).Draw(rt, "longhistory") == 0 {
+		hi = thor
+	}
+	return rapid.IntRange(lo, hi).Draw(rt, "nactions")
+}
